@@ -5,8 +5,10 @@ package trzsz
 import (
 	"bytes"
 	"fmt"
+	"net"
 	"os"
 	"path/filepath"
+	"regexp"
 	"sort"
 	"strconv"
 	"strings"
@@ -356,6 +358,191 @@ func (r *vfRelayRig) episode(kind string, rnd *vfRand) bool {
 	return true
 }
 
+// vfPumpConn copies everything read from conn into a sink.
+func vfPumpConn(conn net.Conn, sink *vfSink) {
+	buf := make([]byte, 32*1024)
+	for {
+		n, err := conn.Read(buf)
+		if n > 0 {
+			sink.Write(buf[:n])
+		}
+		if err != nil {
+			return
+		}
+	}
+}
+
+func vfConnWriteSplit(conn net.Conn, p []byte, policy int, rnd *vfRand) {
+	switch policy {
+	case 1:
+		for i := 0; i < len(p); i += 3 {
+			conn.Write(p[i:vfMin(len(p), i+3)])
+		}
+	case 2:
+		for i := 0; i < len(p); {
+			n := 1 + rnd.Intn(rnd.PickInt(5, 20, 60))
+			if i+n > len(p) {
+				n = len(p) - i
+			}
+			conn.Write(p[i : i+n])
+			i += n
+			if rnd.Intn(4) == 0 {
+				time.Sleep(200 * time.Microsecond)
+			}
+		}
+	default:
+		conn.Write(p)
+	}
+}
+
+var vfTrigPortRe = regexp.MustCompile(`::TRZSZ:TRANSFER:R:1\.1\.5:(\d+):(\d+)`)
+
+// tunnelEpisode: one confirmed handshake whose ACT/CFG and tokens travel through the relay's tunnel.
+func (r *vfRelayRig) tunnelEpisode(rnd *vfRand) bool {
+	c := r.c
+	var ct, st []vfTok
+	pol := func() int { return rnd.Intn(3) }
+	listener, err := net.Listen("tcp", "127.0.0.1:0")
+	if err != nil {
+		c.Inconc("listen: %v", err)
+		return false
+	}
+	defer listener.Close()
+	port := listener.Addr().(*net.TCPAddr).Port
+	srvConnCh := make(chan net.Conn, 1)
+	r.idn++
+	id := fmt.Sprintf("%011d00", (time.Now().UnixMilli()%1e7)*10000+r.idn%10000)
+	go func() {
+		conn, err := listener.Accept()
+		if err != nil {
+			return
+		}
+		buf := make([]byte, 100)
+		n, _ := conn.Read(buf)
+		clientHello, serverHello := getHelloConstant(id, port)
+		if string(buf[:n]) != clientHello {
+			conn.Close()
+			return
+		}
+		conn.Write([]byte(serverHello))
+		srvConnCh <- conn
+	}()
+	s0 := r.toClient.Len()
+	// in-band traffic before, quiesced
+	c0 := r.toServer.Len()
+	var ibc, ibs []vfTok
+	pre := r.ctoks(2, "must", false, &ibc)
+	spre := r.stoks(2, "must", false, &ibs)
+	r.clientIn.WriteAtomic(pre)
+	r.serverOut.WriteAtomic(spre)
+	if !vfWaitSink(r.toServer, c0, pre[len(pre)-10:], 10*time.Second) || !vfWaitSink(r.toClient, s0, spre[len(spre)-10:], 10*time.Second) {
+		c.Viol("c13-standby-lost", "standby tokens did not pass before the tunnel episode")
+		return false
+	}
+	t0 := r.toClient.Len()
+	r.serverOut.WriteAtomic([]byte(fmt.Sprintf("::TRZSZ:TRANSFER:R:1.1.5:%s:%d\r\n", id, port)))
+	if !vfWaitSink(r.toClient, t0, []byte("#R"), 10*time.Second) {
+		c.Viol("c13-trigger-not-forwarded", "tunnel episode: the trigger did not reach the client side")
+		return false
+	}
+	m := vfTrigPortRe.FindSubmatch(r.toClient.Bytes()[t0:])
+	if m == nil {
+		c.Viol("c13-trigger-malformed", "tunnel episode: forwarded trigger %q", vfHead(r.toClient.Bytes()[t0:], 80))
+		return false
+	}
+	var relayPort int
+	fmt.Sscanf(string(m[2]), "%d", &relayPort)
+	if relayPort == port || relayPort == 0 {
+		c.Viol("c13-tunnel-port-not-rewritten", "the relay forwarded the server's own tunnel port %d", port)
+		return false
+	}
+	cconn, err := net.DialTimeout("tcp", fmt.Sprintf("127.0.0.1:%d", relayPort), 2*time.Second)
+	if err != nil {
+		c.Viol("c13-tunnel-listener", "cannot connect to the relay's tunnel port %d: %v", relayPort, err)
+		return false
+	}
+	defer cconn.Close()
+	clientHello, serverHello := getHelloConstant(string(m[1]), relayPort)
+	cconn.Write([]byte(clientHello))
+	hb := make([]byte, 100)
+	cconn.SetReadDeadline(time.Now().Add(5 * time.Second))
+	n, _ := cconn.Read(hb)
+	cconn.SetReadDeadline(time.Time{})
+	if string(hb[:n]) != serverHello {
+		c.Viol("c13-tunnel-greeting", "relay answered the tunnel greeting with %q", hb[:n])
+		return false
+	}
+	var sconn net.Conn
+	select {
+	case sconn = <-srvConnCh:
+	case <-time.After(5 * time.Second):
+		c.Viol("c13-tunnel-server-side", "the relay never connected to the server's tunnel port")
+		return false
+	}
+	defer sconn.Close()
+	fromClient, fromServer := vfNewSink(), vfNewSink() // what arrives at the server / at the client through the tunnel
+	go vfPumpConn(sconn, fromClient)
+	go vfPumpConn(cconn, fromServer)
+	// the client's ACT through the tunnel, with tokens around it
+	act := "#ACT:" + encodeString(fmt.Sprintf(`{"lang":"go","version":"1.1.5","confirm":true,"newline":"\n","protocol":%d,"binary":true,"support_dir":true,"tunnel":true}`, 4+rnd.Intn(3))) + "\n"
+	var bundle []byte
+	bundle = append(bundle, r.ctoks(rnd.Intn(3), "junk", false, &ct)...)
+	bundle = append(bundle, act...)
+	bundle = append(bundle, r.ctoks(1+rnd.Intn(4), "must", true, &ct)...)
+	vfConnWriteSplit(cconn, bundle, pol(), rnd)
+	if !vfWaitSink(fromClient, 0, []byte("#ACT:"), 10*time.Second) {
+		c.Viol("c13-act-not-forwarded", "tunnel episode: no ACT reached the server through the tunnel")
+		return false
+	}
+	post := r.ctoks(1+rnd.Intn(4), "must", true, &ct)
+	var sb []byte
+	sb = append(sb, r.stoks(rnd.Intn(3), "junk", false, &st)...)
+	sb = append(sb, "#CFG:"+encodeString(vfCfgJSON)+"\n"...)
+	sb = append(sb, r.stoks(1+rnd.Intn(4), "must", true, &st)...)
+	done := make(chan struct{})
+	rnd2 := vfNewRand("c13-tunnel-post", rnd.U64())
+	pol2 := rnd2.Intn(3)
+	go func() {
+		vfConnWriteSplit(cconn, post, pol2, rnd2)
+		close(done)
+	}()
+	vfConnWriteSplit(sconn, sb, pol(), rnd)
+	<-done
+	if !vfWaitSink(fromServer, 0, []byte("#CFG:"), 10*time.Second) {
+		c.Viol("c13-cfg-not-forwarded", "tunnel episode: no CFG reached the client through the tunnel")
+		return false
+	}
+	tail := r.ctoks(1+rnd.Intn(3), "must", true, &ct)
+	stail := r.stoks(1+rnd.Intn(3), "must", true, &st)
+	vfConnWriteSplit(cconn, tail, pol(), rnd)
+	vfConnWriteSplit(sconn, stail, pol(), rnd)
+	if !vfWaitSink(fromClient, 0, tail[len(tail)-10:], 10*time.Second) || !vfWaitSink(fromServer, 0, stail[len(stail)-10:], 10*time.Second) {
+		c.Viol("c13-lost:tunnel-tail", "tunnel episode: the last tokens did not come out (status %d)", r.relay.relayStatus.Load())
+		return false
+	}
+	cconn.Write([]byte("#EXIT:" + encodeString("Saved 1 file") + "\n"))
+	if !vfWaitSink(fromClient, 0, []byte("#EXIT:"), 10*time.Second) {
+		c.Viol("c13-exit-not-forwarded", "tunnel episode: the EXIT line did not pass")
+		return false
+	}
+	deadline := time.Now().Add(5 * time.Second)
+	for r.relay.relayStatus.Load() != kRelayStandBy && time.Now().Before(deadline) {
+		time.Sleep(time.Millisecond)
+	}
+	if stt := r.relay.relayStatus.Load(); stt != kRelayStandBy {
+		c.Viol("c13-not-standby-after:tunnel", "relay status is %d after the tunnel episode ended", stt)
+		return false
+	}
+	if !vfCheckDirection(c, "client->server (tunnel)", fromClient.Bytes(), 'c', ct, []string{"#ACT:", "#EXIT:"}, "tunnel") {
+		return false
+	}
+	if !vfCheckDirection(c, "server->client (tunnel)", fromServer.Bytes(), 's', st, []string{"#CFG:"}, "tunnel") {
+		return false
+	}
+	c.Obs("episodes_tunnel", 1)
+	return true
+}
+
 // vfLoadPoints reads the yield-point table written by the driver.
 func vfLoadPoints() map[int][3]string {
 	m := map[int][3]string{}
@@ -401,11 +588,27 @@ func TestVF_C13(t *testing.T) {
 			defer vfSetPlan(nil)
 			rig := vfNewRelayRig(c)
 			defer rig.Close()
+			rig.relay.SetTunnelConnector(func(port int) net.Conn {
+				conn, err := net.DialTimeout("tcp", fmt.Sprintf("127.0.0.1:%d", port), 2*time.Second)
+				if err != nil {
+					return nil
+				}
+				return conn
+			})
 			var hist []string
 			for e := 0; e < episodes; e++ {
 				kind := kinds[(e+c.R.Intn(len(kinds)))%len(kinds)]
+				if e%5 == 3 {
+					kind = "tunnel"
+				}
 				hist = append(hist, kind)
-				if !rig.episode(kind, c.R) {
+				ok := false
+				if kind == "tunnel" {
+					ok = rig.tunnelEpisode(c.R)
+				} else {
+					ok = rig.episode(kind, c.R)
+				}
+				if !ok {
 					c.Replay(map[string]interface{}{"episodes": hist, "plan": id})
 					return
 				}
